@@ -63,6 +63,12 @@ fn qs(t: &mut Tape) -> String {
             _ => format!("{}={}", k, t.choose(&vals)),
         });
     }
+    if t.chance(1, 20) {
+        // one long opaque value (session blobs, base64 payloads): the URL exceeds 2 KiB while its
+        // token count stays small
+        let at = t.pick(parts.len() + 1);
+        parts.insert(at, format!("{}={}", t.choose(&["blob", "id", "state"]), t.choose(&["z", "Zq", "9"]).repeat(700 + t.pick(2000))));
+    }
     let mut s = parts.join("&");
     if t.chance(1, 8) {
         s = format!("&{}", s);
@@ -109,7 +115,7 @@ pub fn decode(t: &mut Tape) -> NetCase {
 }
 
 pub fn check(ctx: &mut Ctx) {
-    ctx.rule = "1-5 removeparam rules (8 parameter names incl. case variants, 8 patterns, extra options such as types/domain/party/important) + blocking/important/exception companions and malformed removeparam spellings; 1-5 raw URLs whose query mixes empty keys/values, bare keys, '=' inside values, '&&', leading/trailing '&', percent escapes, non-ASCII, and whose fragment may contain '?', '#' and parameters. Oracle: query surgery on the raw input string (query = first '?' before the first '#'; remove pairs k=v with non-empty v and k equal to a matching rule's name; '?' dropped only when nothing remains; None when nothing removed or an important rule blocks); which rules match comes from NetworkFilter::matches. Non-trivial = rewrite that keeps some parameters, or matching rule that must not rewrite (near-miss key / empty value).".into();
+    ctx.rule = "1-5 removeparam rules (8 parameter names incl. case variants, 8 patterns, extra options such as types/domain/party/important) + blocking/important/exception companions and malformed removeparam spellings; 1-5 raw URLs whose query mixes empty keys/values, bare keys, '=' inside values, '&&', leading/trailing '&', percent escapes, non-ASCII, 1 in 20 with one opaque value of 0.7-5 KiB, and whose fragment may contain '?', '#' and parameters. Oracle: query surgery on the raw input string (query = first '?' before the first '#'; remove pairs k=v with non-empty v and k equal to a matching rule's name; '?' dropped only when nothing remains; None when nothing removed or an important rule blocks); which rules match comes from NetworkFilter::matches. Non-trivial = rewrite that keeps some parameters, or matching rule that must not rewrite (near-miss key / empty value).".into();
     ctx.assumptions = vec!["the rewritten URL is compared byte for byte with the model's".into()];
     let n = ctx.tier.pick(1_500_000, 10_000_000);
     drive(ctx, "removeparam", n, 300, &decode, &check_case);
